@@ -1911,6 +1911,20 @@ hwloc__xml_import_diff(hwloc__xml_import_state_t state,
  ********* main XML import *********
  ***********************************/
 
+static void
+hwloc__xml_count_pus_and_numanodes(hwloc_obj_t obj, unsigned *nrpus, unsigned *nrnumas)
+{
+  hwloc_obj_t child;
+  if (obj->type == HWLOC_OBJ_PU)
+    (*nrpus)++;
+  else if (obj->type == HWLOC_OBJ_NUMANODE)
+    (*nrnumas)++;
+  for_each_child(child, obj)
+    hwloc__xml_count_pus_and_numanodes(child, nrpus, nrnumas);
+  for_each_memory_child(child, obj)
+    hwloc__xml_count_pus_and_numanodes(child, nrpus, nrnumas);
+}
+
 /* this canNOT be the first XML call */
 static int
 hwloc_look_xml(struct hwloc_backend *backend, struct hwloc_disc_status *dstatus)
@@ -2054,6 +2068,18 @@ done:
 		data->msgprefix);
       goto err;
     }
+
+  {
+    /* the core and many helpers assume at least one PU and one NUMA node */
+    unsigned nrpus = 0, nrnumas = 0;
+    hwloc__xml_count_pus_and_numanodes(root, &nrpus, &nrnumas);
+    if (!nrpus || !nrnumas) {
+      if (hwloc__xml_verbose())
+        fprintf(stderr, "%s: invalid topology without any PU or NUMA node object\n",
+                data->msgprefix);
+      goto err;
+    }
+  }
 
   /* allocate default cpusets and nodesets if missing, the core will restrict them */
   hwloc_alloc_root_sets(root);
